@@ -4,6 +4,7 @@ import (
 	"testing"
 
 	"github.com/honeycombio/refinery/verifharness/vkit"
+	"pgregory.net/rapid"
 )
 
 // C02: kept spans are forwarded exactly once, dropped spans never; every accepted
@@ -76,6 +77,14 @@ func judgeC02(c colCase, obs colObs) (res vkit.Result, facts lifecycleFacts) {
 	return
 }
 
+// genC02Case: the lifecycle generator, in a fifth of the cases with dry run on (the statement:
+// "exactly once if its trace is kept (or dry run is on)").
+func genC02Case(t *rapid.T) colCase {
+	c := genLifecycleCase(t)
+	c.Cfg.DryRun = rapid.IntRange(0, 4).Draw(t, "dryrun") == 0
+	return c
+}
+
 func execC02(c colCase) vkit.Result {
 	obs := execCase(c, execOpts{Drain: true, StopAtEnd: true})
 	res, facts := judgeC02(c, obs)
@@ -97,6 +106,9 @@ func execC02(c colCase) vkit.Result {
 		}
 	}
 	res.NonTrivial = n >= 2
+	if c.Cfg.DryRun {
+		res.Class("dry-run")
+	}
 	return res
 }
 
@@ -109,7 +121,7 @@ func TestC02(t *testing.T) {
 			"'eventually decided' is checked in bounded form at the drain horizon",
 			"kept-decision capacity exceeds the traces of a case; re-salted retry for dropped-filter false positives",
 		},
-		Gen:  genLifecycleCase,
+		Gen:  genC02Case,
 		Exec: execC02,
 	})
 }
